@@ -47,6 +47,15 @@ def gen(c):
             for ch in chunks(rng, rng.choice([16, 32, 2 * rout + 3]), rout):
                 lines.append('sp.squeeze kind=%s obj=1 n=%d' % (kind, ch))
             p.case(lines + ['sp.free kind=%s obj=1' % kind], cost=0.6 + ml / 60.0); c.distinct([(kind, 'chunked', rep)])
+    # an object used, re-keyed in place (reinit) and used again equals a fresh one: PRF (both variants), KMAC, HMAC
+    for kind in ('prf', 'kmac', 'kmaca', 'hmac', 'hmaca'):
+        for rep in range(3 if th else 2):
+            k1, k2 = pattern(rng, 16, 'rand'), pattern(rng, 16, 'rand'); m1, m2 = pattern(rng, rng.choice([5, 32, 40]), 'rand'), pattern(rng, rng.choice([0, 9, 33]), 'rand')
+            ini = lambda k, re: ('sp.init kind=%s obj=1 re=%d key=%s' % (kind, re, hx(k))) + (' variant=%s outlen=%d' % (('plain', 0) if rep % 2 else ('fixed', 16)) if kind == 'prf' else (' custom=%s outlen=%d' % (hx(pattern(rng, 3)), 32 if rep % 2 else 0) if kind.startswith('kmac') else ''))
+            fin = (lambda k: 'sp.hmacfinal kind=%s obj=1 key=%s' % (kind, hx(k))) if kind.startswith('hmac') else (lambda k: 'sp.squeeze kind=%s obj=1 n=16' % kind)
+            p.case([ini(k1, 0), 'sp.absorb kind=%s obj=1 in=%s' % (kind, hx(m1)), fin(k1), ini(k2, 1), 'sp.absorb kind=%s obj=1 in=%s' % (kind, hx(m2)), fin(k2),
+                    ini(k1, 1), fin(k1), 'sp.free kind=%s obj=1' % kind], cost=2.0)
+            c.distinct([(kind, 'reused', rep)])
     # MAC verify: right tag, each of the 128 single-bit flips, random tags
     for rep in range(3 if th else 1):
         k = pattern(rng, 16); m = pattern(rng, rng.choice([0, 7, 33]))
@@ -82,6 +91,8 @@ def run(c):
                       'a wrong 16-byte tag equal to the right one has probability 2^-128 (random tags)']
     p = gen(c)
     c.tv(p, 'rel', 'mac', max_cost=20.0)
+    if c.tier != 'thorough':
+        c.tv_sample(p, 'mac', ('c32', 'c64', 'dxor'), k=45, max_cost=15.0, pred=lambda cs: cs[1] < 4 and 'short_big' not in cs[0][1])        # per-back-end precomputed states
     if c.tier == 'thorough':
         for fl in ('c32', 'dxor'):
             c.tv(p, fl, 'mac', max_cost=20.0)
